@@ -179,6 +179,12 @@ func genMsg(rng *rand.Rand) (string, func() netty.Message) {
 		for i := range bs {
 			bs[i] = pl(1 + rng.Intn(40))
 		}
+		if rng.Intn(4) == 0 { // a small header followed by a body above the largest pool class (and vice versa)
+			bs = [][]byte{pl(1 + rng.Intn(16)), pl(65537 + rng.Intn(5000))}
+			if rng.Intn(3) == 0 {
+				bs = [][]byte{bs[1], bs[0], pl(3)}
+			}
+		}
 		return "w:" + hexList(bs), func() netty.Message { return &scratchWriter{chunks: bs} }
 	case 6, 7:
 		n := rng.Intn(5)
@@ -245,7 +251,13 @@ func scribble(m netty.Message) {
 	}
 }
 
+type keptBytes struct {
+	spec string
+	b    []byte
+}
+
 func runC14(seed int64, count int) {
+	var kept []keptBytes
 	rng := rand.New(rand.NewSource(seed))
 	for cs := 0; cs < count; cs++ {
 		spec, mk := genMsg(rng)
@@ -319,6 +331,13 @@ func runC14(seed int64, count int) {
 			emit("C14 tobytes %s err", spec)
 		} else {
 			emit("C14 tobytes %s %s", spec, hexOrDash(b))
+			// the caller keeps what it was given: looked at again a few conversions later
+			kept = append(kept, keptBytes{spec, b})
+			if len(kept) > 4 {
+				k := kept[0]
+				kept = kept[1:]
+				emit("C14 tobytes %s %s", k.spec, hexOrDash(k.b))
+			}
 		}
 		if r, err := utils.ToReader(mk()); err != nil {
 			emit("C14 toreader %s err", spec)
